@@ -18,6 +18,8 @@ from simkit.pipe import Pipe, open_frontend
 
 ID = "C17"
 LEVEL = "exploration"
+TECHNIQUE = ('deterministic simulation with corruption faults in forked children: random / mutated / structure-aware hostile byte strings, outcome + raw-read cap + peak-RSS accounting per input, watchdog')
+LEVEL_NOTE = ('seeded sampling of byte strings; resident (not virtual) memory judged; hang = no result in 20 s confirmed twice')
 RUNS = {"quick": 800, "thorough": 30000}
 CHUNK = 10
 BATCH = 40
